@@ -55,6 +55,7 @@ func splitMap(s string, addKV func(k, v string) error) error {
 	curKey := ""
 	curVal := ""
 	for tok := sc.Scan(); sc.ErrorCount == 0; tok = sc.Scan() {
+		verifToken("map", tok, sc.TokenText(), sc.ErrorCount)
 		switch tok {
 		case scanner.String, scanner.RawString, scanner.Ident, scanner.Float, scanner.Int:
 			txt := sc.TokenText()
@@ -103,6 +104,7 @@ func splitMap(s string, addKV func(k, v string) error) error {
 		}
 	}
 
+	verifToken("map", scanner.EOF, "", sc.ErrorCount)
 	if sc.ErrorCount != 0 {
 		return fmt.Errorf("parsing failed: %v", errs)
 	}
